@@ -174,8 +174,8 @@ Proof.
   destruct (first_zombie (kids s)) as [[z rest]|]; [|inversion H; subst; repeat split; lia].
   cbn [reexec set_kids] in H. destruct (reexec s =? k_pid z).
   - apply IHfuel in H. unfold nws in *. cbn [ws wall cur set_reexec set_kids] in H. exact H.
-  - destruct (Z.shiftr (k_status z) 8 =? worker_boot_error); [inversion H; subst; unfold nws; cbn [ws wall cur set_kids]; repeat split; lia|].
-    destruct (Z.shiftr (k_status z) 8 =? app_load_error); [inversion H; subst; unfold nws; cbn [ws wall cur set_kids]; repeat split; lia|].
+  - destruct ((Z.shiftr (k_status z) 8 =? worker_boot_error) && raises _); [inversion H; subst; unfold nws; cbn [ws wall cur set_kids]; repeat split; lia|].
+    destruct ((Z.shiftr (k_status z) 8 =? app_load_error) && raises _); [inversion H; subst; unfold nws; cbn [ws wall cur set_kids]; repeat split; lia|].
     apply IHfuel in H. unfold nws in *. cbn [ws wall cur set_ws set_kids] in H. destruct H as [A [B C]]. repeat split; auto.
     pose proof (remove_z_length (k_pid z) (ws s)). lia.
 Qed.
